@@ -78,7 +78,7 @@ CLAIMS = {
    design="3.C15", technique=T + "; character-class predicates + Go-side expansion of constant formats"),
  "C16": dict(
    text="Deductive proof on (*dataCloser).Close and SendMail: a repeated Close is an error with no terminator written and no reply read (the writer is marked closed on entry), the first Close writes exactly one terminator and, non-LMTP, reads exactly one verdict whose error is returned; SendMail passes the sender and the recipients in the order given, one RCPT each.",
-   note=COMMON_NOTE + "Assumed: textproto's dot writer implements RFC 5321 dot-stuffing (standard library). NOT covered in this revision: the composition lemma unstuff(dotStuff(body)) = normalise(body) (server side of the trip is C01).",
+   note=COMMON_NOTE + "Assumed: textproto's dot writer implements RFC 5321 dot-stuffing (standard library). BOUNDED stand-in (labelled bounded, never counted as proved; the dot writer is library code): textproto's dot writer as handed out by Client.Data composed with the server's real dataReader gives the body with bare LF normalised and a final CRLF ensured, the next command left unread, for all bodies of <= 6 (thorough: 8) tokens over {., LF, CRLF, a, ..}, every 2-split and byte-by-byte writing, read buffers 1, 2, 3, 4096.",
    design="3.C16", technique=T),
  "C18": dict(
    text="Deductive proof on (*dataCloser).Close (LMTP branch) and Rcpt/Reset: loop invariant replies read == recipients answered, exactly len(accepted recipients of this transaction) replies are read (Close returns), the status callback is called with the recipient whose reply was just read (in order), the recipients are forgotten when the transaction ends (second transaction starts empty), and without a callback the first refusal is remembered and returned.",
